@@ -1119,14 +1119,21 @@ class IkeSa(object):
                 self.log_warning('Cannot process IKE_SA rekeying while doing anything else. Sending TEMPORARY_FAILURE')
                 response_payloads = [PayloadNOTIFY.from_exception(TemporaryFailure())]
             else:
-                self.new_ike_sa = IkeSa(False, proposal.spi, self.configuration, self.my_addr, self.peer_addr)
-                # take over the existing child sas
-                self.new_ike_sa.child_sas = self.child_sas
-                self.child_sas = []
-                response_payloads = self.new_ike_sa._process_ike_sa_negotiation_request(request, True,
-                                                                                        self.ike_sa_keyring.sk_d)
-                self.new_ike_sa.state = IkeSa.State.ESTABLISHED
-                self.state = IkeSa.State.REKEYED
+                new_ike_sa = IkeSa(False, proposal.spi, self.configuration, self.my_addr, self.peer_addr)
+                try:
+                    response_payloads = new_ike_sa._process_ike_sa_negotiation_request(request, True,
+                                                                                       self.ike_sa_keyring.sk_d)
+                except (NoProposalChosen, InvalidKePayload) as ex:
+                    # the rekey is rejected, but this IKE_SA (and its CHILD_SAs) remain untouched
+                    self.log_warning(f'IKE_SA rekey negotiation failed. {ex}')
+                    response_payloads = [PayloadNOTIFY.from_exception(ex)]
+                else:
+                    # take over the existing child sas
+                    new_ike_sa.child_sas = self.child_sas
+                    self.child_sas = []
+                    new_ike_sa.state = IkeSa.State.ESTABLISHED
+                    self.new_ike_sa = new_ike_sa
+                    self.state = IkeSa.State.REKEYED
         # if it is a to CHILD_SAs
         else:
             response_payloads = self._process_create_child_sa_negotiation_req(request)
